@@ -382,6 +382,17 @@ def run(ctx):
                 ty = (x.local_ty(t['args'][0]['l']) or '').replace('&', '').strip()
                 if ty in ('f64', 'u64'):
                     fmt_types.add(ty)
+    # ... through Display only: `{:e}` / `{:.15e}` / `{:?}` are other formatters (an exponent format with a fixed precision rounds to fewer
+    # digits than f64 needs to parse back to the same value)
+    other_fmt = []
+    for x in P.with_closures(si):
+        for pos, t in x.iter_calls():
+            if call_matches(t, r'fmt::rt::Argument::<.*>::new_(lower_exp|upper_exp|debug|lower_hex|upper_hex|octal|binary|pointer)') and t['args'] and 'l' in t['args'][0]:
+                ty = (x.local_ty(t['args'][0]['l']) or '').replace('&', '').strip()
+                if ty in ('f64', 'u64', 'f32', 'u32', 'i64'):
+                    other_fmt.append(x.where(pos))
+    C.check(not other_fmt, 'C20-SIB-format', 'serialize_internal|numbers-through-display-only', 'CharacterData::serialize_internal (or a helper of it) formats a number with a formatter other than Display (exponent / debug / radix format): '
+            'the text need not parse back to the same value (a fixed-precision exponent format keeps 16 of the 17 significant digits an f64 can need)', other_fmt[0] if other_fmt else '')
     # ... and by nothing else: a literal text produced in the serializer (or in a helper it calls, which is inlined) in place of a formatted
     # number is a hand-written formatter (`if v.is_infinite() { "INF" }` loses the sign of -INF)
     lit_fmt = []
